@@ -72,8 +72,8 @@ CHECKS.update({
                  "sum-layer alignment lemma (Kronecker weight columns vs product inputs (h1,h2) and units (i1,i2)) for ALL arities and unit counts; refusals "
                  "on different scopes / state counts; functional.multiply executed on four template pairs x three input kinds (pair layers by the rules of their "
                  "classes, sum x sum inputs first-operand-major, product x product zipped, disjoint scopes as a binary Kronecker over copies, outputs = product "
-                 "of the output lists, references to exactly the two operand layers' tensors); arbitrary DAGs and the Kronecker-layer permutation matrix "
-                 "(numpy) only by the bounded stand-in (compiled multiply vs Kronecker-ordered product of reference values)"),
+                 "of the output lists, references to exactly the two operand layers' tensors); the Kronecker-layer permutation matrix (numpy eye / transpose modelled as tensor operations; arity 2, 3); arbitrary DAGs "
+                 "only by the bounded stand-in (compiled multiply vs Kronecker-ordered product of reference values)"),
     "C05": mixed("contract obligations: Scope.__iter__ strictly increasing for every finite set of ids (set iteration modelled as arbitrary order); "
                  "differentiate_polynomial_layer coefficients / degree / zero polynomial / refusal for orders 1..3; TorchPolynomialDifferential kernel; "
                  "functional.differentiate executed on four templates (single polynomial, 2-ary Kronecker and Hadamard products, 3-ary product) for orders 1-2: "
